@@ -81,6 +81,7 @@ def sweep(tier: str) -> Sweep:
                 try:
                     setattr(o, slot, 5)
                     sw.check(False, "assignment to a field did not raise", {"cls": c, "v": s, "part": slot, "clause": "setattr"})
+                    o = parse_ok(cls, s)   # the receiver is corrupted now: continue with a fresh one
                 except AttributeError:
                     pass
                 except Exception as e:  # noqa: BLE001
@@ -107,7 +108,11 @@ def sweep(tier: str) -> Sweep:
                 except Exception:  # noqa: BLE001
                     ops.append("raised")
             sw.note(["frame", c, s, ops], "frame")
-            sw.check((o.to_tuple(), str(o), hash(o)) == before, "the receiver changed", {"cls": c, "v": s, "clause": "frame", "ops": ops}, before, (o.to_tuple(), str(o)))
+            try:
+                after = (o.to_tuple(), str(o), hash(o))
+            except Exception as e:  # noqa: BLE001
+                after = f"{type(e).__name__}: {e}"
+            sw.check(after == before, "the receiver changed", {"cls": c, "v": s, "clause": "frame", "ops": ops}, before, after)
     return sw
 
 
